@@ -52,4 +52,5 @@ def oracle(H):
     return v
 
 
+SWEEP = (4, 100)
 install(globals(), ID, 3500, 40000, profiles=[("profile", 0.55), ("delivery", 0.45)])
